@@ -301,6 +301,29 @@ def edits(rng, w, info, k=3):
             if lower:
                 from ir_world import tok_of_s
                 out.append(['create', 'children', str(idx(d)), tok_of_s('n%d' % rng.randint(0, 99)), '0', '0', str(idx(rng.choice(lower)))])
+    # directed renames (six cases in ten): an instance (preferably a hierarchical one: it is on the path of
+    # everything below it), a cable or a port somewhere below the top gets another name, the name None, or loses
+    # its name entry - references obtained before stay valid and must report the new name
+    if rng.random() < 0.6:
+        from ir_world import tok_of_s
+        nl = w.objs[info['netlist']]
+        topd = nl.top_instance.reference if nl.top_instance is not None else None
+        below = [w.objs[i] for i in defs if topd is not None and (w.objs[i] is topd or _reaches(topd, w.objs[i]))]
+        insts = [c for dd in below for c in dd.children]
+        hier = [c for c in insts if c.reference is not None and (c.reference.children or c.reference.cables or c.reference.ports)]
+        others = [x for dd in below for x in list(dd.cables) + list(dd.ports)]
+        for _ in range(rng.randint(1, 2)):
+            pool = hier if hier and rng.random() < 0.6 else (insts + others)
+            if not pool:
+                break
+            e = rng.choice(pool)
+            r = rng.random()
+            if r < 0.6:
+                out.append(['setname', str(idx(e)), tok_of_s('rn%d' % rng.randint(0, 99))])
+            elif r < 0.8:
+                out.append(['setname', str(idx(e)), '~'])
+            else:
+                out.append(['delname', str(idx(e))])
     # directed last edit (one case in eight): the library that holds the top cell is taken out of the netlist and
     # put into a new, empty netlist (which has no top instance): every reference obtained before is rooted at an
     # instance that is no longer the top instance of the netlist its cell lives in
